@@ -3,7 +3,7 @@
 from __future__ import annotations
 
 import ast
-from typing import List, Optional, Tuple
+from typing import List, Optional, Set, Tuple
 
 from oqv.astutil import call_name, method_call
 from oqv.cfg import CFG
@@ -194,6 +194,7 @@ def run(prog: Program, chk: Check) -> None:
     chk.call(k6, prog, chk)
     chk.call(k7, prog, chk)
     chk.call(k8, prog, chk)
+    chk.call(k9, prog, chk)
 
 
 def k4(prog: Program, chk: Check) -> None:
@@ -521,3 +522,113 @@ def k8(prog: Program, chk: Check) -> None:
              "of a low-temperature bath wrong)", floor=1)
     from rules.c12 import guard_limits
     guard_limits(prog, chk, "K8", quals=("CustomSD.eta_function",))
+
+
+WILD = "any"      # a literal zero compares with any scale
+
+
+def _scale_degree(du, nid, e: ast.AST, sv_names: Set[str], depth: int = 0):
+    """Degree of homogeneity of e in the singular values (they have degree 1, the requested
+    precision and constants degree 0, a literal 0 any degree); None if e mixes scales."""
+    from oqv.dataflow import expand
+    if depth > 8:
+        return None
+    if isinstance(e, ast.Constant):
+        if isinstance(e.value, (int, float)) and not isinstance(e.value, bool) and e.value == 0:
+            return WILD
+        return 0
+    if isinstance(e, ast.Name):
+        if e.id in sv_names:
+            return 1
+        ds = [d for d in du.reaching(nid, e.id) if d.value is not None and not d.sel]
+        if ds and all(d.node != nid for d in ds):
+            degs = {_scale_degree(du, d.node, d.value, sv_names, depth + 1) for d in ds}
+            return degs.pop() if len(degs) == 1 else None
+        return 0                            # a parameter (the precision) or a global constant
+    if isinstance(e, ast.Subscript):
+        return _scale_degree(du, nid, e.value, sv_names, depth + 1)
+    if isinstance(e, ast.Attribute):
+        return 0
+    if isinstance(e, ast.UnaryOp):
+        return _scale_degree(du, nid, e.operand, sv_names, depth + 1)
+    if isinstance(e, ast.BinOp):
+        a = _scale_degree(du, nid, e.left, sv_names, depth + 1)
+        b = _scale_degree(du, nid, e.right, sv_names, depth + 1)
+        if a is None or b is None:
+            return None
+        if isinstance(e.op, ast.Mult):
+            return WILD if WILD in (a, b) else a + b
+        if isinstance(e.op, ast.Div):
+            return WILD if a == WILD else (None if b == WILD else a - b)
+        if isinstance(e.op, (ast.Add, ast.Sub)):
+            if a == WILD:
+                return b
+            if b == WILD:
+                return a
+            return a if a == b else None
+        if isinstance(e.op, ast.Pow) and isinstance(e.right, ast.Constant) and \
+                isinstance(e.right.value, (int, float)) and a != WILD:
+            return a * e.right.value
+        return None
+    if isinstance(e, ast.Call):
+        fn = (dotted(e.func) or "").split(".")[-1]
+        if fn in ("amax", "max", "amin", "min", "sum", "norm", "abs", "absolute", "sqrt", "cumsum",
+                  "maximum", "minimum", "sort", "array", "asarray", "real", "float"):
+            degs = [_scale_degree(du, nid, a, sv_names, depth + 1) for a in e.args]
+            degs = [d for d in degs]
+            if any(d is None for d in degs) or not degs:
+                return None
+            real = {d for d in degs if d != WILD}
+            if len(real) > 1:
+                return None                 # max(precision * s[0], eps): two scales
+            d = real.pop() if real else WILD
+            return d / 2 if (fn == "sqrt" and d != WILD) else d
+        if fn == "finfo" or fn == "len":
+            return 0
+        return 0 if not any(isinstance(x, ast.Name) and x.id in sv_names for x in ast.walk(e)) else None
+    return None
+
+
+def k9(prog: Program, chk: Check) -> None:
+    chk.rule("K9", "the Gibbs back end truncates relative to the largest singular value and to "
+             "nothing else: every comparison that decides which singular values are kept is "
+             "homogeneous in them (s / max(s) < precision, s < precision * s[0]) - the imaginary-"
+             "time MPS is not normalised, its scale falls like exp(-tau * E_min), so an absolute "
+             "floor (machine epsilon, a fixed threshold) discards everything but the largest "
+             "value once all levels lie well above zero and the state is no longer invariant "
+             "under a constant shift of the Hamiltonian", floor=1)
+    from oqv.cfg import CFG as _CFG
+    from oqv.dataflow import DefUse as _DU
+    u = prog.unit("backends.tempo_backend:TIBaseBackend._scipy_svd")
+    du = _DU(u, _CFG(u.node, exc_edges=False))
+    chk.saw(u, du.cfg)
+    # the singular values: position 1 of what an svd call returns
+    sv_names = {d.name for d in du.defs if d.value is not None and isinstance(d.value, ast.Call)
+                and (dotted(d.value.func) or "").split(".")[-1] == "svd"
+                and any(s_ == ("idx", 1) for s_ in d.sel)}
+    if not sv_names:
+        raise AnalysisError("K9: no `u, s, v = svd(...)` in TIBaseBackend._scipy_svd")
+    n = 0
+    for nd in du.cfg.nodes:
+        if nd.copy_of:
+            continue
+        for x in nd.walk():
+            if not (isinstance(x, ast.Compare) and len(x.ops) == 1):
+                continue
+            sides = [x.left, x.comparators[0]]
+            ds = [_scale_degree(du, nd.id, s_, sv_names) for s_ in sides]
+            from oqv.dataflow import expand as _expand
+            mentions = any(isinstance(y, ast.Name) and y.id in sv_names
+                           for s_ in sides for y in ast.walk(_expand(du, nd.id, s_, depth=6,
+                                                                      stop_names=sv_names)))
+            if not mentions:
+                continue
+            n += 1
+            ok = None not in ds and (WILD in ds or ds[0] == ds[1])
+            chk.add("K9", u, f"{norm(x)[:70]}", ok,
+                    f"both sides scale like s^{ds[0] if ds[0] != WILD else ds[1]}" if ok else
+                    "the two sides scale differently with the singular values (an absolute "
+                    "quantity is compared with, or mixed into, a threshold relative to the "
+                    "largest singular value)", x)
+    if n < 1:
+        raise AnalysisError("K9: no comparison of singular values with a threshold found")
